@@ -215,6 +215,20 @@ func (w *vWorld) mutate(genuine, other, signer, mut string, rng *mrand.Rand) str
 		claims["exp"] = now - 3600
 	case "expjust":
 		claims["exp"] = now - 3
+	case "noexp": // issued a month ago, and no expiry claim at all / an expiry of zero: "no expiry" is not "valid for ever"
+		delete(claims, "exp")
+		for _, k := range []string{"iat", "nbf"} {
+			if _, ok := claims[k]; ok {
+				claims[k] = now - 30*24*3600
+			}
+		}
+	case "expzero":
+		claims["exp"] = 0
+		for _, k := range []string{"iat", "nbf"} {
+			if _, ok := claims[k]; ok {
+				claims[k] = now - 30*24*3600
+			}
+		}
 	case "notype":
 		delete(claims, "token_type")
 		delete(claims, "type")
